@@ -44,10 +44,69 @@ func (t *buildTr) detailMember(x ast.Expr, field string) (string, *wty) {
 	return "", nil
 }
 
+// sexpr: a string-valued member: `cd.F` of an item's own record, or `x.P.F` of a pointer-typed record member
+func (t *buildTr) sexpr(e ast.Expr) (string, bool) {
+	sel, ok := e.(*ast.SelectorExpr)
+	if !ok {
+		return "", false
+	}
+	if s, ty := t.detailMember(sel.X, sel.Sel.Name); ty != nil && ty.k == "str" {
+		return "(" + s + ")", true
+	}
+	if _, isCall := sel.X.(*ast.CallExpr); !isCall {
+		if _, isSel := sel.X.(*ast.SelectorExpr); !isSel {
+			return "", false
+		}
+	}
+	if s, ty := t.expr(sel.X); ty != nil && ty.k == "orec" {
+		goType := ""
+		for g, k := range walkRecKinds {
+			if k == ty.kind {
+				goType = g
+			}
+		}
+		if ft := t.structField(goType, sel.Sel.Name); ft != nil && src(ft) == "string" {
+			opt := strings.TrimSuffix(strings.SplitN(s, ", ", 2)[1], ")")
+			return "(((" + opt + ").map (·.s " + leanStr(sel.Sel.Name) + ")).getD [])", true
+		}
+	}
+	return "", false
+}
+
+// dexpr: a date-valued member `x.P.F` of a pointer-typed record member
+func (t *buildTr) dexpr(e ast.Expr) (string, bool) {
+	sel, ok := e.(*ast.SelectorExpr)
+	if !ok {
+		return "", false
+	}
+	if _, isSel := sel.X.(*ast.SelectorExpr); !isSel {
+		return "", false
+	}
+	if s, ty := t.expr(sel.X); ty != nil && ty.k == "orec" {
+		goType := ""
+		for g, k := range walkRecKinds {
+			if k == ty.kind {
+				goType = g
+			}
+		}
+		if ft := t.structField(goType, sel.Sel.Name); ft != nil && src(ft) == "time.Time" {
+			opt := strings.TrimSuffix(strings.SplitN(s, ", ", 2)[1], ")")
+			return "(((" + opt + ").map (·.d " + leanStr(sel.Sel.Name) + ")).getD Date.zero)", true
+		}
+	}
+	return "", false
+}
+
 func (t *buildTr) iexpr(e ast.Expr) (string, *wty) {
 	switch x := e.(type) {
 	case *ast.ParenExpr:
 		return t.iexpr(x.X)
+	case *ast.UnaryExpr:
+		if x.Op == token.NOT {
+			if a, at := t.iexpr(x.X); at != nil && at.k == "bool" {
+				return "(!" + a + ")", at
+			}
+		}
 	case *ast.Ident:
 		if t.ints[x.Name] {
 			return "(σ.get " + leanStr(x.Name) + ")", &wty{k: "int"}
@@ -67,7 +126,30 @@ func (t *buildTr) iexpr(e ast.Expr) (string, *wty) {
 				return "(" + ls + ".length : Int)", &wty{k: "int"}
 			}
 		}
+		if sel, ok := x.Fun.(*ast.SelectorExpr); ok {
+			// `x.parseNumField(s)` of the converters every record embeds
+			if sel.Sel.Name == "parseNumField" && len(x.Args) == 1 {
+				if a, ok := t.sexpr(x.Args[0]); ok {
+					return "(parseNum " + a + ")", &wty{k: "int"}
+				}
+			}
+			// `t.IsZero()`
+			if sel.Sel.Name == "IsZero" && len(x.Args) == 0 {
+				if a, ok := t.dexpr(sel.X); ok {
+					return a + ".isZero", &wty{k: "bool"}
+				}
+			}
+		}
 	case *ast.BinaryExpr:
+		// emptiness tests of string members
+		if (x.Op == token.NEQ || x.Op == token.EQL) && src(x.Y) == `""` {
+			if a, ok := t.sexpr(x.X); ok {
+				if x.Op == token.NEQ {
+					return "(!" + a + ".isEmpty)", &wty{k: "bool"}
+				}
+				return a + ".isEmpty", &wty{k: "bool"}
+			}
+		}
 		// nil tests of pointer members
 		if x.Op == token.NEQ || x.Op == token.EQL {
 			if src(x.Y) == "nil" {
@@ -261,6 +343,14 @@ func (t *buildTr) memberAssign(rec, field string, rhs ast.Expr) (string, bool) {
 				opt := strings.TrimSuffix(strings.SplitN(s, ", ", 2)[1], ")")
 				return fmt.Sprintf("let %s := %s.setS %s (((%s).map (·.s %s)).getD [])", rec, rec, leanStr(field), opt, leanStr(field)), true
 			}
+		}
+		// a string member of another pointer-typed record (`cl.GetHeader().ECEInstitutionRoutingNumber`)
+		if a, ok := t.sexpr(rhs); ok {
+			return fmt.Sprintf("let %s := %s.setS %s %s", rec, rec, leanStr(field), a), true
+		}
+	case "time.Time":
+		if a, ok := t.dexpr(rhs); ok {
+			return fmt.Sprintf("let %s := %s.setD %s %s", rec, rec, leanStr(field), a), true
 		}
 	}
 	return "", false
